@@ -94,26 +94,31 @@ func propC16(w *World, r *Report) {
 	cr, _, _ := ctl.Races()
 	r.Check(len(cr) == 1, "G4", "positive control: an unprotected write/read pair is reported", "-", fmt.Sprint(len(cr)))
 	// R4: requesters hold the package mutex
-	for _, name := range []string{"newSnapshot", "newSnapshotRecording"} {
-		fn := w.Func("cmd/thermal-recorder", name)
-		if fn == nil {
-			r.Unknown("R4", name, "-", "function not found")
+	// the requesters: functions of the recorder package, reached from D-Bus roots, that touch package-level state
+	reqs := map[string][2]int{}
+	var reqLocks = map[string]string{}
+	for _, x := range a.Acc {
+		if !strings.HasPrefix(x.Root, "dbus:") || !strings.HasPrefix(x.Loc, "global:main.") {
 			continue
 		}
-		okAll, n := true, 0
-		var muName string
-		for _, x := range a.Acc {
-			if x.Fn == name {
-				n++
-				if !strings.Contains(x.Locks, "global:main.") {
-					okAll = false
-				} else {
-					muName = x.Locks
-				}
-			}
+		c := reqs[x.Fn]
+		c[0]++
+		if strings.Contains(x.Locks, "global:main.") {
+			c[1]++
+			reqLocks[x.Fn] = x.Locks
 		}
-		r.Check(okAll && n > 0, "R4", name+" accesses shared state only while holding the package mutex", w.Pos(fn.Pos()), fmt.Sprintf("%d accesses, locks {%s}", n, muName))
+		reqs[x.Fn] = c
 	}
+	var rn []string
+	for k := range reqs {
+		rn = append(rn, k)
+	}
+	sort.Strings(rn)
+	for i, name := range rn {
+		c := reqs[name]
+		r.Check(c[0] == c[1], "R4", fmt.Sprintf("service requester #%d accesses package-level state only while holding the package mutex", i+1), "-", fmt.Sprintf("%s: %d accesses, %d under {%s}", name, c[0], c[1], reqLocks[name]))
+	}
+	r.Check(len(rn) >= 2, "G4", "service requesters found", "-", fmt.Sprint(rn))
 	// R2: CopyRecent (shared with C19.Q6)
 	if ri, err := resolveRing(w); err != nil {
 		r.Unknown("R2", "motion.FrameLoop", "-", err.Error())
